@@ -59,6 +59,10 @@ claimed = {
          "Interleaving lane: every ordered pair of ~70 command instances (every write family and the readers observing it) with overlapping keys, A parked by the hook handler at each keyspace step k, B started meanwhile; replies and final whole-store dump must equal serial A;B or B;A computed on the same build (quick: a seed-dependent third of the pairs). Stress lane on a -race build: 8-12 clients (TCP and embedded) with unique values on shared counters, lists, sets, sorted sets, registers and multi-key pairs while SAVE, REWRITEAOF, the background expiry sampler and clock moves run; INCR/HINCRBY replies must be a gap-free set and match the final value, every inserted element must be removed exactly once or present exactly once, MGET must never see half an MSET, the register/counter history must be linearizable (porcupine), the AOF replay must equal the final dataset (log order = execution order) and a snapshot taken under writers must be a per-writer prefix; any process death, hang or race report in repository code is a violation.",
          "Interleavings inside a single keyspace call are not enumerated (race detector covers the executions the stress produces); triples are not enumerated. 'B blocked' observations only steer the schedule. A watchdog firing is inconclusive except a stress process that makes no progress for 10 minutes.",
          "DESIGN.md §3 C05"),
+ "C18": ("exploration", "offline interval-logic checker over client-boundary pub/sub histories recorded on one logical clock, against a reference subscription table, closed by a drain marker per channel",
+         "Seeded histories over 2-4 TCP subscriber connections, 1-3 publishers (TCP and embedded), 4 channels and the patterns a*, ?b, *: SUBSCRIBE/PSUBSCRIBE with running-count confirmations, UNSUBSCRIBE/PUNSUBSCRIBE by name and all, single publishes and parallel bursts of 50-500 publishes, PUBSUB CHANNELS/NUMSUB/NUMPAT at quiescent points; every frame a subscriber connection receives is strict-parsed and timestamped; the checker requires: no message without a matching subscription alive during its publish, at most once per (message, connection, subscription), every message published after a confirmed and never withdrawn subscription is received (decided after the drain marker of the same channel has arrived), publish order per (publisher, channel, subscription), exact confirmation sets and counts, introspection equal to the reference table.",
+         "Subscriptions overlapping a publish in time may or may not receive it; PUNSUBSCRIBE is allowed to withdraw subscriptions whose name matches the given glob (SugarDB documents 'unsubscribe using patterns'); the UNSUBSCRIBE reply is accepted in SugarDB's nested-array form pinned by the unit tests; a drain watchdog firing is inconclusive. Embedded subscribers (net.Pipe based API) are not exercised.",
+         "DESIGN.md §3 C18"),
  "C01": ("exploration", "lock-step differential monitoring of the real handlers against an executable reference typed map (replies + whole-store dump after every step)",
          "Every sequence of depth <=2 (thorough: <=3) over an 80-command alphabet from 8 initial states, plus seeded random programs of 40-80 steps over binary/numeric/huge values, run on fresh instances; each step's strict-parsed reply must be allowed by the reference model and the side-effect-free dump of the store must equal the model state. Held on what was explored, not a proof.",
          "Trusts the verif-tagged dump (reads the store under its own lock), the injected virtual clock, and the reference model in harness/model (set-valued where statement and docs are silent). Inputs matching a listed known finding are filtered out of exploration and replayed by a witness lane.",
